@@ -287,10 +287,32 @@ impl<'w> Gen<'w> {
                 }
                 8 => {
                     // unconditional branch out of a block, dead code behind it
+                    let flavour = self.rng.below(3);
                     s.block(None, |b| {
                         let id = b.id();
                         b.br(id);
                         b.i32_const(1).drop();
+                        // dead structured code behind the terminator
+                        match flavour {
+                            0 => {
+                                b.i32_const(0);
+                                b.if_else(
+                                    None,
+                                    |t| {
+                                        t.i64_const(1).drop();
+                                    },
+                                    |e| {
+                                        e.f32_const(2.0).drop();
+                                    },
+                                );
+                            }
+                            1 => {
+                                b.loop_(None, |l| {
+                                    l.i32_const(3).drop();
+                                });
+                            }
+                            _ => {}
+                        }
                     });
                 }
                 _ => {
@@ -734,6 +756,30 @@ pub fn apply(m: &mut Module, st: &mut EditState, e: &Edit) -> (bool, String) {
                     s.instr_at(at, ir::Const { value: Value::F64(2.0) });
                     s.instr_at(at, ir::Const { value: Value::F64(1.0) });
                 }
+            }
+            (true, String::new())
+        }
+        Edit::InsertTerminator { func, seq, pos, what } => {
+            let locals: Vec<FunctionId> = m.funcs.iter_local().map(|(id, _)| id).collect();
+            if locals.is_empty() {
+                return (false, "no local function".into());
+            }
+            let fid = locals[*func as usize % locals.len()];
+            let no_results = m.types.get(m.funcs.get(fid).ty()).results().is_empty();
+            let lf = m.funcs.get(fid).kind.unwrap_local();
+            let mut c = SeqCollector { seqs: vec![] };
+            ir::dfs_in_order(&mut c, lf, lf.entry_block());
+            if c.seqs.is_empty() {
+                return (false, "no sequence".into());
+            }
+            let (sid, len) = c.seqs[*seq as usize % c.seqs.len()];
+            let at = *pos as usize % (len + 1);
+            let b = m.funcs.get_mut(fid).kind.unwrap_local_mut().builder_mut();
+            let mut s = b.instr_seq(sid);
+            if no_results && what % 2 == 1 {
+                s.instr_at(at, ir::Return {});
+            } else {
+                s.instr_at(at, ir::Unreachable {});
             }
             (true, String::new())
         }
